@@ -221,7 +221,12 @@ def run(ctx):
                       "and the reviewed per-selector caches; the record is never stored into")
     module_containers = {name for name, recs in sel.symbols.items() if any(r[0] == "assign" and isinstance(r[1], (ast.Dict, ast.List, ast.Set, ast.Call)) for r in recs)}
     n_scanned = 0
-    for fn in [f for f in ast.walk(sel.tree) if isinstance(f, ast.FunctionDef)]:
+    # (the selector module, and the descriptor methods the matchers call for every record: Type.<t>, fields(...))
+    base10 = prog.module("flow.record.base")
+    module_containers |= {name for name, recs in base10.symbols.items() if any(r[0] == "assign" and isinstance(r[1], (ast.Dict, ast.List, ast.Set)) for r in recs)}
+    rd10 = prog.cls("flow.record.base.RecordDescriptor")
+    on_path = [f for f in ast.walk(sel.tree) if isinstance(f, ast.FunctionDef)] + [f for f in prog.methods_of(rd10).values() if f.name in ("getfields", "get_all_fields", "get_field_tuples", "fields")]
+    for fn in on_path:
         owner = getattr(fn, "_parent", None)
         if fn.name == "__init__":
             continue
